@@ -31,7 +31,7 @@ use crate::common::*;
 use crate::peer::*;
 
 /// polls the inner future at most `n` times, yielding to the scheduler in between; `None` = dropped unfinished
-struct PollN<F> {
+pub struct PollN<F> {
     fut: Option<Pin<Box<F>>>,
     left: u32,
 }
@@ -60,7 +60,7 @@ impl<F: Future> Future for PollN<F> {
     }
 }
 
-fn poll_n<F: Future>(f: F, n: u32) -> PollN<F> {
+pub fn poll_n<F: Future>(f: F, n: u32) -> PollN<F> {
     PollN { fut: Some(Box::pin(f)), left: n }
 }
 
